@@ -87,11 +87,32 @@ pub fn run(lts: Arc<Lts>, o: &WalkOpts, pairs: usize) -> Value {
             let e: &Edge = if !comp.is_empty() && rng.gen_bool(0.8) { comp.choose(&mut rng).unwrap() } else { es.choose(&mut rng).unwrap() };
             (e.op.to_json(), false)
         };
+        // overlay configurations: in a third of the pairs the state is first given a HISTORY - an entry is removed
+        // through the overlay (whiteout marker) - and the faulted operation re-creates something at that path
+        // (marker and entry side by side if the fault hits between the two steps)
+        let present: Vec<usize> = (0..lts.universe.len()).filter(|&i| s[i][0] != 0).collect();
+        let prep: Option<(Vec<String>, bool)> = if o.cfg.contains("ovl") && !present.is_empty() && rng.gen_bool(0.35) {
+            let i = *present.choose(&mut rng).unwrap();
+            Some((lts.universe[i].clone(), s[i][0] == 1))
+        } else {
+            None
+        };
+        let (opj, is_obs) = match &prep {
+            Some((p, _)) => {
+                let op = *["create_file", "create_dir", "create_dir_all", "create_file"].choose(&mut rng).unwrap();
+                (json!({"op":op,"p":p,"q":[],"c": if op == "create_file" { vec![1] } else { vec![] },"f":"","tick":0}), false)
+            }
+            None => (opj, is_obs),
+        };
         let seed = rng.gen::<u64>();
         let mk = |lts: &Lts| -> Session {
             let mut r = StdRng::seed_from_u64(seed);
             let mut sess = new_session(lts, o, &s, &mut r);
             sess.light = false;
+            if let Some((p, isdir)) = &prep {
+                let rm = Op::from_json(&json!({"op": if *isdir { "remove_dir_all" } else { "remove_file" },"p":p,"q":[],"c":[],"f":"","tick":0}));
+                let _ = exec(&sess.w.root, &sess.w.root, &rm, &sess.cx);
+            }
             sess
         };
         let run_op = |sess: &mut Session| -> Value {
